@@ -37,7 +37,7 @@ def generate(rng: random.Random, tier: str) -> dict:
         callers.append({
             "start": rng.choice([0, 0, 0, 1, 5, 256, 512, 517, rng.randrange(0, 1200)]),
             "timeout": rng.choice(TIMEOUTS),
-            "mid": rng.choice([None, f"c{i}", f"{i + 1}", f"req-{i}", i + 1, 7, "7"]),
+            "mid": rng.choice([None, f"c{i}", f"{i + 1}", f"req-{i}", i + 1, 7, "7", 0, ""]),
             "method": rng.choice(["tools/list", "ping", "x/y"]),
         })
     # ids must be distinct as JSON values (7 and "7" are distinct ids)
